@@ -21,6 +21,7 @@ META = {
     "assumptions": ["field-wise equality: numbers as floats (nan/inf by class), sequences modulo tuple/list; non-numeric distribution descriptors compared as strings"],
     "deciding": ["roundtrip:result-json", "roundtrip:region-dict"],
 }
+META["added"] = 'Added: finalize() makes the run inconclusive when a result class is never produced, quantile pairs with nan / inf, second rebuild from the same dictionary object and from its JSON text.'
 MANIFEST = {
     "technique": "boundary recorder on EvaluationResult.to_dict/from_dict, csep.write_json, csep.load_evaluation_result and CartesianGrid2D.to_dict/from_dict; results are produced by the library's own 19 evaluation functions on generated inputs; field-wise equality oracle; class-coverage ledger",
     "level_text": "Every result class the library can produce is obtained by actually running each of the 19 evaluation functions on generated inputs (including -inf, NaN, None and empty-distribution outcomes) and round-tripped through JSON; all documented fields must be equal and the class preserved; the ledger lists which function produced which class and a class never produced makes the run inconclusive. Unmasked Cartesian regions rebuilt from their dict must give the same cell for every probe.",
